@@ -25,7 +25,7 @@
 From Coq Require Import List NArith ZArith Bool.
 From Coq Require String.
 Import String.StringSyntax.
-From Sccache Require Import Base.Sx Model.DistStatus Model.DistFallback Model.DistArgs Model.DistHistory Model.DistRustInputs.
+From Sccache Require Import Base.Sx Model.DistStatus Model.DistFallback Model.DistArgs Model.DistHistory Model.DistRustInputs Model.DistPaths.
 Import ListNotations.
 Local Open Scope N_scope.
 Local Open Scope string_scope.
@@ -237,6 +237,62 @@ Definition run_rustinputs (x : sx) : sx :=
   | _ => err "bad rustinputs case"
   end.
 
+(* ---- leg simplify: ( ( ( LINKPATH TARGET ) ... ) ( DIR ... ) PATH ) -> refused | ( ( comp ... ) 1 )
+   components: name | dotdot | dot; a TARGET may start with `root` (absolute, from the scratch root) ---- *)
+Definition dec_comp (x : sx) : comp :=
+  if is_sym "dotdot" x then CDotDot else if is_sym "dot" x then CDot else CName (get_B x).
+Definition dec_link (x : sx) : list name * (bool * list comp) :=
+  match x with
+  | SL [SL at_; SL t] =>
+      (map get_B at_,
+       match t with
+       | h :: r => if is_sym "root" h then (true, map dec_comp r) else (false, map dec_comp t)
+       | [] => (false, [])
+       end)
+  | _ => ([], (false, []))
+  end.
+
+Definition run_simplify (x : sx) : sx :=
+  match x with
+  | SL [SL ls; _; SL path] =>
+      match simplify_in (map dec_link ls) (map dec_comp path) with
+      | None => sym "refused"
+      | Some q => SL [SL (map SB q); SN 1]
+      end
+  | _ => err "bad simplify case"
+  end.
+
+(* ---- leg rustdeps: ( OP ... ), OP = ( build CRATE USES ) | package | touch
+   crates / paths: cdep 1, bdep 2, ddep 4; top names bdep and ddep as externs ---- *)
+Definition crate_id (x : sx) : N := if is_sym "bdep" x then 2 else if is_sym "ddep" x then 4 else 1.
+
+Fixpoint run_rustdeps_ops (s : rstate) (ops : list sx) : list sx :=
+  match ops with
+  | [] => []
+  | SL [_; c; u] :: r =>
+      let '(s', _) := rstep s (RBuild (crate_id c) (if get_bool u then [1] else [])) in
+      sym "ok" :: run_rustdeps_ops s' r
+  | o :: r =>
+      if is_sym "package" o then
+        let '(s1, d2) := rstep s (RDiscover 2) in
+        let '(s2, d4) := rstep s1 (RDiscover 4) in
+        let names := match d2, d4 with Some a, Some b => a ++ b | _, _ => [] end in
+        SL ([sym "libbdep-2222.rlib"] ++ (if existsb (N.eqb 1) names then [sym "libcdep-1111.rlib"] else [])
+            ++ [sym "libddep-4444.rlib"]) :: run_rustdeps_ops s2 r
+      else sym "ok" :: run_rustdeps_ops s r
+  end.
+
+Definition run_rustdeps (x : sx) : sx :=
+  match x with
+  | SL ops =>
+      (* the harness first builds cdep, bdep and ddep (neither using cdep) *)
+      let '(s1, _) := rstep r_init (RBuild 1 []) in
+      let '(s2, _) := rstep s1 (RBuild 2 []) in
+      let '(s3, _) := rstep s2 (RBuild 4 []) in
+      SL (run_rustdeps_ops s3 ops)
+  | _ => err "bad rustdeps case"
+  end.
+
 (* ---- leg args ---- *)
 Definition dec_lang (x : sx) : option language :=
   if is_sym "C" x then Some LC else if is_sym "Cxx" x then Some LCxx
@@ -285,6 +341,8 @@ Definition dispatch (leg : list N) (x : sx) : sx :=
   else if bytes_eqb leg (bs "request") then run_request x
   else if bytes_eqb leg (bs "toolchain") then run_toolchain x
   else if bytes_eqb leg (bs "rustinputs") then run_rustinputs x
+  else if bytes_eqb leg (bs "simplify") then run_simplify x
+  else if bytes_eqb leg (bs "rustdeps") then run_rustdeps x
   else if bytes_eqb leg (bs "args") then run_args true x
   else if bytes_eqb leg (bs "args_orig") then run_args false x
   else err "unknown leg".
